@@ -186,14 +186,37 @@ def front_sources(acc, unit):
                     acc.violation({"clause": "source-dependent", "front": fname.split("-")[0], "source": name}, {"harness": "front-sources", "front": fname, "stream": unit["stream"], "cut": cut, "input": p.hex(), "source": name}, f"{fname} text cut at {cut}: from a {name}: {kind} / {len(evs)} events, from bytes: {base[1]} / {len(base[0])} events", size=cut)
             acc.count("cuts")
             acc.shape((fname, unit["stream"], cut))
-            # incremental: at least the events of the complete carried bytes minus one look-ahead byte
-            if fname.startswith("hex"):
-                digits = sum(1 for c in p if c not in b" \n")
-                have = carried[: digits // 2]
+            # incremental: the reference automaton says which carried bytes the text prefix contains and how the text
+            # ends; a clean end -> exactly the decode of those bytes; a text problem surfaces when the pump pulls its
+            # look-ahead byte, i.e. before the events of the last complete byte are out -> exactly the events of the
+            # bytes before it
+            ref = text.RefHex if fname.startswith("hex") else text.RefSwtpm
+            st, have = ref.init, []
+            for c in p:
+                st, o = ref.step(st, c)
+                have += o
+            have = bytes(have)
+            eof = ref.eof(st) if st[0] != "OUT" else "any"
+            want = None
+            if eof in ("end", "ValueError"):
+                # front-end == binary decoder over (reference automaton): the carried bytes, then a clean end or ValueError
+                def src(have=have, eof=eof):
+                    yield from have
+                    if eof == "ValueError":
+                        raise ValueError("text problem")
+
                 loader.cache_clear()
-                r = impl.run("CommandResponseStream", have[:-1] if have else have, strict=True)
-                if base[0][: len(r.events)] != r.events[: len(base[0])] or len(base[0]) < len(r.events) - 1:
-                    acc.violation({"clause": "front-end-not-incremental", "front": "hex"}, {"harness": "front-sources", "front": fname, "stream": unit["stream"], "cut": cut, "input": p.hex()}, f"{fname} text cut at {cut} ({digits} digits): {len(base[0])} events ({base[1]}), decoding the {len(have) - 1} complete carried bytes minus one directly gives {len(r.events)}", size=cut)
+                evs, kind = [], "Done"
+                try:
+                    for e in ns.Binary.marshal(tpm_type=ns.CommandResponseStream, buffer=src(), abort_on_error=True):
+                        evs.append(impl.norm_ev(e))
+                except ValueError:
+                    kind = "ValueError"
+                except Exception as e:  # noqa: BLE001
+                    kind = impl.norm_err(e)[0]
+                want = (evs, kind)
+            if want is not None and base != want:
+                acc.violation({"clause": "front-end-not-incremental", "front": fname.split("-")[0], "text_ends": eof}, {"harness": "front-sources", "front": fname, "stream": unit["stream"], "cut": cut, "input": p.hex()}, f"{fname} text cut at {cut} (carries {len(have)} complete bytes, text ends: {eof}): {base[1]} after {len(base[0])} events, expected {want[1]} after {len(want[0])} events", size=cut)
 
 
 def run_unit(unit):
